@@ -38,6 +38,28 @@ impl<const D: usize> KdTree<D> {
     }
 }
 
+impl<const D: usize> KdTree<D> {
+    /// All points within a squared distance of the query, as (index, distance) sorted by distance
+    /// and then by index.
+    ///
+    /// `ImmutableKdTree::within` (kiddo 5.0.3) pairs the distances of points in an oversize leaf
+    /// with the wrong items, so this goes through `best_n_within` without a limit, which reads the
+    /// items correctly, and sorts the result here instead.
+    fn items_within(&self, query: &[f64; D], squared_radius: f64) -> Vec<(usize, f64)> {
+        let mut result = self
+            .tree
+            .best_n_within::<SquaredEuclidean>(
+                query,
+                squared_radius,
+                NonZero::new(usize::MAX).unwrap(),
+            )
+            .map(|r| (r.item, r.distance.sqrt()))
+            .collect::<Vec<_>>();
+        result.sort_by(|a, b| a.1.total_cmp(&b.1).then(a.0.cmp(&b.0)));
+        result
+    }
+}
+
 impl<const D: usize> KdTreeSearch<D> for KdTree<D> {
     /// Find the nearest point in the kd-tree to a given test point, returning the index of the
     /// nearest point and the distance to it.
@@ -76,13 +98,19 @@ impl<const D: usize> KdTreeSearch<D> for KdTree<D> {
     ///
     /// ```
     fn nearest(&self, point: &Point<f64, D>, count: NonZero<usize>) -> Vec<(usize, f64)> {
-        let result = self
-            .tree
-            .nearest_n::<SquaredEuclidean>(&point.coords.into(), count);
+        // `ImmutableKdTree::nearest_n` (kiddo 5.0.3) reports the right distances but the wrong
+        // items for points in a leaf which holds more than one full chunk, which happens when many
+        // points tie on an axis. Only the distance of the last neighbour is taken from it; the
+        // items come from `items_within`, which reads them correctly.
+        let query: [f64; D] = point.coords.into();
+        let nearest = self.tree.nearest_n::<SquaredEuclidean>(&query, count);
+        let Some(last) = nearest.last() else {
+            return Vec::new();
+        };
+
+        let mut result = self.items_within(&query, last.distance.next_up());
+        result.truncate(count.get());
         result
-            .iter()
-            .map(|r| (r.item, r.distance.sqrt()))
-            .collect::<Vec<_>>()
     }
 
     /// Find all points within a given radius of a point.
@@ -100,13 +128,7 @@ impl<const D: usize> KdTreeSearch<D> for KdTree<D> {
     ///
     /// ```
     fn within(&self, point: &Point<f64, D>, radius: f64) -> Vec<(usize, f64)> {
-        let result = self
-            .tree
-            .within::<SquaredEuclidean>(&point.coords.into(), radius * radius);
-        result
-            .iter()
-            .map(|r| (r.item, r.distance.sqrt()))
-            .collect::<Vec<_>>()
+        self.items_within(&point.coords.into(), radius * radius)
     }
 
     /// Get the number of points in the kd-tree.
